@@ -420,7 +420,7 @@ func c08Refusals(c *Ctx, a *sketchAnchors) {
 	c.R.floor(rule, "flag dispatches with a default arm", nd, 5)
 
 	// the sketch-level block loop
-	f := c.P.DeclaredMethod(a.DDSketch, "decodeAndMergeWith")
+	f := c.blockLoop(a)
 	if f == nil {
 		// role: the method of *DDSketch that both DecodeAndMergeWith variants call with a fallback closure
 		c.R.undecided(rule, "anchor/decodeAndMergeWith", "", "", "the shared block-loop decoder exists", "unresolved")
